@@ -21,7 +21,8 @@ ENUM = {
     # TLC prints interim coverage reports every minute and the engine takes an interim zero for a dead action, so the
     # coverage guard runs on the small sub-universe "cov" (contained in both tiers: an action taken there is taken in them)
     "thorough": [dict(module="MC_RangeDim", cfg="MC_RangeDim_thorough.cfg", workers=16),
-                 dict(module="MC_RangeDim", cfg="MC_RangeDim_cov.cfg", workers=4, coverage=True, expect_cases=False)],
+                 dict(module="MC_RangeDim", cfg="MC_RangeDim_cov.cfg", workers=4, coverage=True, expect_cases=False,
+                      may_be_unused=["Fast"])   # Fast = the seeded step-attribute lookup, only enabled in spec/history],
 }
 PROOFS = ["proofs/P_RangeDim.tla"]    # thorough tier: bracket uniqueness, right-bound-minus-one, whole count, trim law for all integers (tlapm)
 POOL = 12
@@ -42,6 +43,8 @@ ASSUMPTIONS = ["dyadic steps (1, 2, 250, 1/2, 1/4, 1/8): coordinates must equal 
                "below the tolerance; the enumerated universe (|start| <= 3.5, <= 12 points) is unrestricted",
                "coordinate dtypes float64, int64, int32 (integer start and step) and float32; on a float32 axis the queries are float32 values "
                "(a float64 query within float32 rounding of a coordinate is looked up by pandas as that coordinate: reported, not generated)",
+               "the bracket is defined by the coordinates: axes are also given without a step attribute, with a stale one (subsampled with isel "
+               "keeping attrs, coarser claim) and irregular with an explicit step attribute",
                "a count is pinned only when (stop - start)/step is nominally whole; otherwise floor or ceil is accepted",
                "the class of the exception raised outside the range is not pinned by the statement (any exception counts as 'raises')"]
 
@@ -67,20 +70,36 @@ def step_of(case) -> float:
 DTYPES = {"f8": np.float64, "f4": np.float32, "i8": np.int64, "i4": np.int32}
 
 
-def make_axis(name, a4, s, n, dt="f8"):
-    """The regular axis (a4/4, s, n) with coordinate dtype dt.  float64: as the library builds it (whole-number case of
-    create_range_dim); other dtypes: a numpy array of that dtype (np.arange for integers) with the step attribute."""
+def _lat(ir, k):
+    return k if ir == 0 else (k * (k + 1)) // 2 if ir == 1 else k + k // 2
+
+
+def make_axis(name, a4, s, n, dt="f8", sa=((1, 1),), ir=0):
+    """The axis of n points a4/4 + lat(i)*s with coordinate dtype dt, and what its attributes claim.
+    sa = [[1,1]], ir = 0, float64: as the library builds it (whole-number case of create_range_dim).
+    sa = [[1,k]] (regular): a k-times finer create_range_dim axis subsampled with isel(slice(None, None, k)), which keeps
+    the step attribute of the fine axis.  Otherwise: a numpy array (np.arange for regular integers) wrapped with a step
+    attribute of (p/q)*s, or with no step attribute at all (sa = [])."""
     a = Fraction(a4, 4)
     fs = Fraction(s[0], s[1])
-    if dt == "f8":
+    sa = [list(x) for x in sa]
+    if dt == "f8" and ir == 0 and sa == [[1, 1]]:
         return arrays.create_range_dim(name, float(a), float(a + n * fs), float(fs))
+    if dt == "f8" and ir == 0 and sa and sa[0][0] == 1 and sa[0][1] > 1:
+        k = sa[0][1]
+        fine = arrays.create_range_dim(name, float(a), float(a + n * fs), float(fs / k))
+        v = xr.DataArray(np.zeros(fine.size), dims=[name], coords={name: fine}).isel({name: slice(None, None, k)}).coords[name].variable
+        if v.size != n:
+            raise AssertionError("binder: subsampled axis has the wrong length")
+        return v
     if dt in ("i8", "i4"):
         if a.denominator != 1 or fs.denominator != 1:
             raise ValueError("an integer axis needs an integer start and step")
-        data = np.arange(int(a), int(a + n * fs), int(fs), dtype=DTYPES[dt])
+        data = np.array([int(a + _lat(ir, i) * fs) for i in range(n)], dtype=DTYPES[dt])
     else:
-        data = np.array([float(a + i * fs) for i in range(n)], dtype=DTYPES[dt])
-    return xr.Variable(name, data, attrs={"step": float(fs)})
+        data = np.array([float(a + _lat(ir, i) * fs) for i in range(n)], dtype=DTYPES[dt])
+    attrs = {"step": float(fs * Fraction(sa[0][0], sa[0][1]))} if sa else {}
+    return xr.Variable(name, data, attrs=attrs)
 
 
 def pos_to_value(coords, step, p):
@@ -147,7 +166,7 @@ def _range(case):
 
 def _index(case):
     n = case["n"]
-    v = make_axis("x", case["a4"], case["s"], n, case.get("dt", "f8"))
+    v = make_axis("x", case["a4"], case["s"], n, case.get("dt", "f8"), case.get("sa", [[1, 1]]), case.get("ir", 0))
     arr = xr.DataArray(np.zeros(v.sizes["x"]), dims=["x"], coords={"x": v})
     coords = arr.coords["x"].data
     q = pos_to_value(coords, step_of(case), case["p"])
@@ -172,7 +191,7 @@ def _set(case):
     reg, tr, nc = case.get("reg", ident), case.get("tr", ident), case.get("nc", [])
     names = NAMES[:d]
     a4s = [int(x * 4) for x in (SET_STARTS_INT if dt in ("i8", "i4") else SET_STARTS)]
-    axes = {names[j]: make_axis(names[j], a4s[j], s, sh[j], dt) for j in range(d)}
+    axes = {names[j]: make_axis(names[j], a4s[j], s, sh[j], dt, case.get("sa", [[1, 1]]), case.get("ir", 0)) for j in range(d)}
     total = int(np.prod(sh))
     data = np.arange(1, total + 1, dtype=float).reshape(sh)          # the array as set_value_at_pos will see it (dims = names)
     # layout: built with its dims in the order tr, coordinates registered in the order reg (without dimension nc), then transposed
@@ -264,7 +283,13 @@ def random_cases(rng, tier):
             a4, dt = 4 * (rng.randrange(-8, 9) - (n * s[0] // 2 if rng.random() < 0.5 else 0)), rng.choice(["i8", "i4"])
         elif rng.random() < 0.15:
             dt = "f4"
-        yield {"kind": "index", "s": s, "a4": a4, "dt": dt, "n": n, "p": p, "re": rng.random() < 0.5}
+        sa, ir = [[1, 1]], 0
+        if dt in ("f8", "i8") and n >= 2 and rng.random() < 0.35:
+            sa, ir = rng.choice([([], 0), ([[1, 2]], 0), ([[1, 3]], 0), ([[2, 1]], 0), ([[3, 2]], 0), ([], 1), ([[1, 1]], 1), ([[1, 1]], 2), ([[1, 2]], 2)])
+            if ir:
+                n = min(n, 60)
+                p = min(p, 8 * (n - 1) + 4)
+        yield {"kind": "index", "s": s, "a4": a4, "dt": dt, "n": n, "p": p, "re": rng.random() < 0.5, "sa": sa, "ir": ir}
     for _ in range(100 * k):
         d = rng.randrange(1, 4)
         sh = [rng.randrange(1, 4) for _ in range(d)]
@@ -281,7 +306,8 @@ def random_cases(rng, tier):
         yield {"kind": "set", "s": su, "dt": rng.choice(["i8", "i4"]) if su[1] == 1 and rng.random() < 0.5 else "f8",
                "sh": sh, "q": q, "vm": vm, "reg": perm(), "tr": perm(),
                "nc": [rng.choice(free)] if free and rng.random() < 0.3 else [],
-               "rev": rng.random() < 0.5, "aslist": rng.random() < 0.3}
+               "rev": rng.random() < 0.5, "aslist": rng.random() < 0.3,
+               **dict(zip(("sa", "ir"), rng.choice([([[1, 1]], 0)] * 3 + [([], 0), ([[1, 2]], 0), ([[1, 1]], 1), ([[2, 1]], 2)])))}
 
 
 def nontrivial(o):
